@@ -87,17 +87,87 @@ def slot_names(v):
     return {p._local_var_name for _, p in X.class_props(type(v))}  # noqa: SLF001
 
 
+# zero-argument public methods that are NOT called as accessors: everything whose name says that it changes or
+# builds something (the rest - get_retrievability(), is_empty(), any future getter - is called and what it returns
+# counts as reachable from the instance: a memo / cache behind a getter is state of the instance)
+MUTATOR_PREFIXES = ('add_', 'mk_', 'increment_', 'update_', 'init_', 'set_', 'remove_', 'del', 'clear', 'pop', 'append',
+                    'extend', 'insert', 'sort', 'reverse', 'write_', 'send_', 'start', 'stop', 'close', 'reset')
+NOT_ACCESSORS = {'sorted_container_properties', 'as_etree_node', 'mk_copy'}
+_ACCESSORS = {}
+ACCESSOR_STATS = {'classes_with_accessor': 0, 'calls': 0, 'raised': 0, 'names': {}}
+
+
+def accessor_names(cls):
+    """([zero-argument public getter methods], [python properties], [__slots__ names]) of a class"""
+    if cls not in _ACCESSORS:
+        meths, props, slots = [], [], []
+        for name in dir(cls):
+            if name.startswith('_') or name in NOT_ACCESSORS:
+                continue
+            a = inspect.getattr_static(cls, name)
+            if isinstance(a, property):
+                props.append(name)
+            elif inspect.isfunction(a) and not name.startswith(MUTATOR_PREFIXES):
+                ps = list(inspect.signature(a).parameters.values())[1:]
+                if not [q for q in ps if q.default is q.empty and q.kind not in (q.VAR_POSITIONAL, q.VAR_KEYWORD)]:
+                    meths.append(name)
+        for klass in inspect.getmro(cls):
+            sl = klass.__dict__.get('__slots__', ())
+            slots += [sl] if isinstance(sl, str) else list(sl)
+        _ACCESSORS[cls] = (meths, props, [x for x in slots if x not in ('__dict__', '__weakref__')])
+        if meths or props:
+            ACCESSOR_STATS['classes_with_accessor'] += 1
+            for n in meths + props:
+                ACCESSOR_STATS['names'][n] = ACCESSOR_STATS['names'].get(n, 0) + 1
+    return _ACCESSORS[cls]
+
+
+def accessor_results(v):
+    """[(step, object)] handed out by the getters of v (the call itself is part of the history: it may fill a memo)"""
+    meths, props, slots = accessor_names(type(v))
+    out = []
+    for name in slots:
+        try:
+            out.append(('.' + name, getattr(v, name)))
+        except Exception:  # noqa: BLE001
+            pass
+    for name in props:
+        try:
+            out.append(('.' + name, getattr(v, name)))
+        except Exception:  # noqa: BLE001
+            ACCESSOR_STATS['raised'] += 1
+    for name in meths:
+        ACCESSOR_STATS['calls'] += 1
+        try:
+            out.append((f'.{name}()', getattr(v, name)()))
+        except Exception:  # noqa: BLE001
+            ACCESSOR_STATS['raised'] += 1
+    if hasattr(v, 'get_actual_value'):
+        for name, _ in X.class_props(type(v)):
+            try:
+                out.append((f".get_actual_value('{name}')", v.get_actual_value(name)))
+            except Exception:  # noqa: BLE001
+                pass
+    return out
+
+
+def prime(v):
+    """call every getter of everything reachable from v (the application did that before the operation under test)"""
+    return len(walk(v))
+
+
 def kids(v):
-    """[(step, child)] of a mutable object / tuple"""
+    """[(step, child)] of a mutable object / tuple: declared members, EVERY other entry of __dict__, __slots__,
+    and what the public getters hand out"""
     if X.is_struct(v):
         out, slots = [], set()
         for name, p in X.class_props(type(v)):
             slots.add(p._local_var_name)  # noqa: SLF001
             out.append(('.' + name, v.__dict__.get(p._local_var_name)))  # noqa: SLF001
-        for k, x in v.__dict__.items():
+        for k, x in list(v.__dict__.items()):
             if k not in slots and k not in BY_DESIGN_ATTRS:
                 out.append(('.' + k, x))
-        return out
+        return out + accessor_results(v)
     if isinstance(v, (list, tuple)):
         return [(f'[{i}]', x) for i, x in enumerate(v)]
     if isinstance(v, (set, frozenset)):
@@ -148,20 +218,29 @@ def xcanon(x):
     if isinstance(x, (list, tuple)):
         return ('list', tuple(xcanon(v) for v in x))
     if X.is_struct(x):
-        return snap(x)
+        return snap(x, getters=False)
     try:
         return X.canon(x)
     except Exception:  # noqa: BLE001
         return repr(x)[:80]
 
 
-def snap(v):
-    """comparable value of an instance: canonical dump of the declared members + the other attributes"""
+def snap(v, getters=True):
+    """comparable value of an instance: canonical dump of the declared members + the other attributes + what the
+    public getters return (of the instance itself; nested objects without, that ends the recursion)"""
     if not X.is_struct(v):
         return (X.canon(v), ())
     slots = slot_names(v)
-    extras = tuple((k, xcanon(x)) for k, x in sorted(v.__dict__.items()) if k not in slots and k not in BY_DESIGN_ATTRS)
-    return (X.canon(v), extras)
+    extras = [(k, xcanon(x)) for k, x in sorted(v.__dict__.items()) if k not in slots and k not in BY_DESIGN_ATTRS]
+    if getters:
+        meths, props, slot_attrs = accessor_names(type(v))
+        for name in slot_attrs + props + meths:
+            try:
+                r = getattr(v, name)
+                extras.append((name + ('()' if name in meths else ''), xcanon(r() if name in meths else r)))
+            except Exception as ex:  # noqa: BLE001
+                extras.append((name, 'raises ' + type(ex).__name__))
+    return (X.canon(v), tuple(extras))
 
 
 def snap_diff(s0, s1):
@@ -638,12 +717,26 @@ def stream_sep():
             ops += ['mk_copy', 'mk_copy(copy_node=True)', 'update_from_other_container']
         hist['classes'] += 1
         for rnd in range(req.get('sep_rounds', 1)):
-            for op in ops:
+            no_getters = False
+            for op, primed in [(o, False) for o in ops] + [(o, True) for o in ops]:
+                if primed and no_getters:
+                    break
                 gen = G.Gen(random.Random(RNG.randrange(1 << 30)), max_depth=2, max_list=2, exotic=0.0)
                 a = populated(cls, gen)
                 if a is None:
                     hist['no_instance'] += 1
                     break
+                if hasattr(a, 'set_retrievability'):       # descriptors: give the getter something to hand out
+                    from sdc11073.xml_types import pm_types as _pm
+                    a.set_retrievability([_pm.Retrievability([_pm.RetrievabilityInfo(_pm.RetrievabilityMethod.EPISODIC)])])
+                if primed:
+                    # order of API calls matters: the application called the getters of the source BEFORE the operation
+                    calls = ACCESSOR_STATS['calls']
+                    prime(a)
+                    if ACCESSOR_STATS['calls'] == calls:
+                        no_getters = True          # nothing to call anywhere below this class: same as the plain round
+                        break
+                    hist['primed_pairs'] = hist.get('primed_pairs', 0) + 1
                 allowed = set()      # ids of lxml elements that belong to the input document (shared by design)
                 keep = []
                 top_only = False
@@ -689,7 +782,9 @@ def stream_sep():
                     continue
                 hist['ops'][op] = hist['ops'].get(op, 0) + 1
                 hist['pairs'] += 1
-                judge_pair(fnd, hist, key, op, a, b, allowed, top_only, gen, {'class': key, 'op': op})
+                judge_pair(fnd, hist, key, op, a, b, allowed, top_only, gen,
+                           {'class': key, 'op': op, 'getters_of_the_source_called_before_the_operation': primed},
+                           via=f'{op} [after the getters of a were called]' if primed else None)
     d1 = defaults_value()
     if d1 != d0:
         fnd.add('class default changed', 'any', '?', defaults_diff(d0, d1), 'a _default_py_value changed its value', {})
@@ -699,7 +794,8 @@ def stream_sep():
 
 def judge_pair(fnd, hist, key, op, a, b, allowed, top_only, gen, rep, via=None, both=True):
     """a and b = op(a) share nothing (paths reported); in-place mutation of one leaves the other's value unchanged"""
-    wa_ids = {id(v): p for p, _, v in walk(a)}
+    wa = walk(a)          # kept alive until the end: getters may hand out temporaries, a freed object's id is reused
+    wa_ids = {id(v): p for p, _, v in wa}
     wb = walk(b)
     # elements of the input document may be referenced by everything parsed from it (by design)
     sh = [(wa_ids[id(v)], p, d, type(v).__name__) for p, d, v in wb
@@ -813,6 +909,12 @@ def stream_mdib():
                     except Exception:  # noqa: BLE001
                         pass
 
+    # every descriptor has something its getter can hand out, and the provider has asked all of them (as at start)
+    for c in mdib.descriptions.objects:
+        c.set_retrievability([mdib.data_model.pm_types.Retrievability(
+            [mdib.data_model.pm_types.RetrievabilityInfo(mdib.data_model.pm_types.RetrievabilityMethod.EPISODIC)])])
+    mdib.xtra.update_retrievability_lists()
+
     def label(c):
         return f'{type(c).__name__}({getattr(c, "Handle", None) or getattr(c, "DescriptorHandle", None)})'
 
@@ -836,6 +938,40 @@ def stream_mdib():
                        both=False)
     # 'entity.update' is a signature of its own: the known one-level copy of update_from_other_container does not
     # excuse an entity that shares objects with the mdib (Entity.update can take its values from a private copy)
+    class _Abort(Exception):
+        pass
+
+    def judge_tx_getter(txn, getter, orig, via):
+        """working copies handed out by a transaction (mk_copy of the mdib object): judged inside the transaction,
+        which is then aborted"""
+        try:
+            with getattr(mdib, txn)() as mgr:
+                part = getter(mgr)
+                hist['pairs'] += 1
+                hist['tx_getter_pairs'] = hist.get('tx_getter_pairs', 0) + 1
+                judge_pair(fnd, hist, X.class_key(type(part)), 'transaction getter', orig, part, set(), False, gen,
+                           {'container': label(part), 'mdib_file': 'tests/mdib_tns.xml'}, via=via, both=False)
+                raise _Abort
+        except _Abort:
+            pass
+        except Exception as ex:  # noqa: BLE001
+            k = f'{via}: {type(ex).__name__}({str(ex)[:40]})'
+            hist['entity_update_raised'][k] = hist['entity_update_raised'].get(k, 0) + 1
+    for d in list(mdib.descriptions.objects):
+        judge_tx_getter('descriptor_transaction', lambda mgr, d=d: mgr.get_descriptor(d.Handle), d,
+                        'descriptor_transaction.get_descriptor')
+    for st in list(mdib.states.objects):
+        txn = next((n for flag, n in (('is_realtime_sample_array_metric_state', 'rt_sample_state_transaction'),
+                                      ('is_metric_state', 'metric_state_transaction'),
+                                      ('is_alert_state', 'alert_state_transaction'),
+                                      ('is_component_state', 'component_state_transaction'),
+                                      ('is_operational_state', 'operational_state_transaction'))
+                    if getattr(st, flag, False)), None)
+        if txn is not None:
+            judge_tx_getter(txn, lambda mgr, st=st: mgr.get_state(st.DescriptorHandle), st, f'{txn}.get_state')
+    for st in list(mdib.context_states.objects):
+        judge_tx_getter('context_state_transaction', lambda mgr, st=st: mgr.get_context_state(st.Handle), st,
+                        'context_state_transaction.get_context_state')
     OP_OF = {'entities.by_handle': 'entity getter', 'entity.update': 'entity.update',
              'entity.update [state refreshed with states.descriptor_handle.get_one]': 'entity.update',
              'entity.update of an entity that is older than the mdib': 'entity.update'}
@@ -938,8 +1074,10 @@ def judge_tables(fnd, hist, mdibs, mdib_file, stage, reported=None):
     n_obj = 0
     conts = [x for prefix, m in mdibs for x in table_containers(m, prefix)]
     roots = {id(c) for _, c in conts}
+    alive = []            # getters may hand out temporaries: keep everything visited alive, a freed object's id is reused
     for label, c in conts:
-        for p, d, v in walk(c):
+        alive.append(walk(c))
+        for p, d, v in alive[-1]:
             n_obj += 1
             o = owner.get(id(v))
             if o is None:
@@ -1124,6 +1262,7 @@ if req.get('mdib', True):
 if req.get('tables', False):
     out['tables'] = guarded(stream_tables)
 out['opaque_types'] = OPAQUE
+out['accessors'] = ACCESSOR_STATS
 print(json.dumps(out, default=str))
 sys.stdout.flush()
 if req.get('tables', False):
